@@ -142,6 +142,7 @@ func runScenario(sc Scenario, deadline time.Time, si, sn int) scenarioReport {
 		completed = b
 		if b == 0 && si == 0 {
 			// sample: the default schedule's trace
+			e.memo = nil
 			x := e.runOnce(nil, true)
 			var ops []string
 			for i, en := range lastEntries {
